@@ -70,7 +70,18 @@ class SqliteImpl(SqlImpl):
     @classmethod
     def fix_fn_types(cls, fn: ColFn, val: sqa.ColumnElement, *args: sqa.ColumnElement) -> sqa.ColumnElement:
         if (
-            fn.op in (ops.horizontal_min, ops.horizontal_max, ops.mean, ops.min, ops.max, ops.fill_null, ops.coalesce)
+            fn.op
+            in (
+                ops.horizontal_min,
+                ops.horizontal_max,
+                ops.mean,
+                ops.min,
+                ops.max,
+                ops.fill_null,
+                ops.coalesce,
+                ops.floor,
+                ops.ceil,
+            )
             and fn.dtype().is_float()
         ):
             return sqa.cast(val, sqa.Double)
